@@ -23,7 +23,8 @@ Definition regs_ok (b : bytes) (c : nat) (L : nat -> Prop) (regs : list hvec)
 Definition tsig_wf (t : tsigr) : Prop :=
   wf_name (t_key t) /\ wf_name (t_alg t) /\ length (t_time t) = 6 /\ length (t_server_time t) = 6 /\
   t_reserved t = tsig_unsigned_len (t_key t) (t_alg t) (t_error t) /\
-  Forall wf_bytes (t_alg t) /\ wf_bytes (t_time t) /\ wf_bytes (t_server_time t).
+  Forall wf_bytes (t_alg t) /\ wf_bytes (t_time t) /\ wf_bytes (t_server_time t) /\
+  length (nm_wire (t_key t)) <= 255 /\ length (nm_wire (t_alg t)) <= 255.
 
 Record AInv (d : dstate) (g : gn) (L : nat -> Prop) : Prop := mkAInv {
   a_n : Inv_n (d_w d);
@@ -197,7 +198,9 @@ Definition op_wf (o : wop) : Prop :=
   | OAddRrset _ _ n _ _ _ rds _ => wf_name n /\ Forall wf_bytes rds
   | OSetTsig alg key time _ _ _ stime =>
     wf_name alg /\ wf_name key /\ length time = 6 /\ length stime = 6 /\
-    Forall wf_bytes alg /\ wf_bytes time /\ wf_bytes stime
+    Forall wf_bytes alg /\ wf_bytes time /\ wf_bytes stime /\
+    length (nm_wire key) <= 255 /\ length (nm_wire alg) <= 255
+  | OSetEdns udp => (udp < 65536)%N
   | OUpdateTime t => length t = 6 /\ wf_bytes t
   | _ => True
   end.
@@ -359,6 +362,7 @@ Record FLay (w : writer) (y : lay) (A : amsg) : Prop := mkFLay {
   f_cn : w_ns w = N.of_nat (length (am_ns A));
   f_cr : w_ar w = (N.of_nat (length (am_ar A)) + b2N (osome (w_edns w)) + b2N (osome (w_tsig w)))%N;
   f_bd : (w_qd w <= 65535 /\ w_an w <= 65535 /\ w_ns w <= 65535 /\ w_ar w <= 65535)%N;
+  f_ed : forall e, w_edns w = Some e -> (e_udp e < 65536 /\ e_upper e < 256)%N;
   f_sec : match w_section w with
           | SecQuestion => am_an A = [] /\ am_ns A = [] /\ am_ar A = []
           | SecAnswer => am_ns A = [] /\ am_ar A = []
@@ -381,7 +385,7 @@ Qed.
 
 Lemma FLay_fields w w' y A : FLay w y A -> w_mode w' = w_mode w -> w_qd w' = w_qd w -> w_an w' = w_an w ->
   w_ns w' = w_ns w -> w_ar w' = w_ar w -> w_section w' = w_section w ->
-  osome (w_edns w') = osome (w_edns w) -> osome (w_tsig w') = osome (w_tsig w) -> FLay w' y A.
+  w_edns w' = w_edns w -> osome (w_tsig w') = osome (w_tsig w) -> FLay w' y A.
 Proof. intros [] E1 E2 E3 E4 E5 E6 E7 E8. constructor; rewrite ?E1, ?E2, ?E3, ?E4, ?E5, ?E6, ?E7, ?E8; auto. Qed.
 
 Lemma LInv_move d g y A L w' : AInv d g L -> LInv d y A L -> Inv_n w' ->
@@ -401,8 +405,7 @@ Proof.
   - eapply obs_eq_inv; eauto. apply Hi.
   - apply obs_ragree; auto.
   - destruct HL as [_ HF]. eapply FLay_fields; eauto; try apply X.
-    + rewrite (o_edns _ _ X). reflexivity.
-    + rewrite (o_tsig _ _ X). reflexivity.
+    rewrite (o_tsig _ _ X). reflexivity.
 Qed.
 
 Lemma LInv_regs d y A L regs' : LInv d y A L -> LInv (mkD (d_w d) regs') y A L.
@@ -672,6 +675,12 @@ Qed.
 Lemma AInv_eta d g L : AInv d g L -> AInv (mkD (d_w d) (d_regs d)) g L.
 Proof. destruct d; auto. Qed.
 
+Lemma wire_lower_length n : length (nm_wire (nm_lower n)) = length (nm_wire n).
+Proof.
+  rewrite !nm_wire_length. f_equal. unfold nm_lower. induction n as [|l r IH]; [reflexivity|].
+  cbn [map]. rewrite !nm_lwire_cons. cbn [length]. rewrite !app_length, map_length. rewrite IH. reflexivity.
+Qed.
+
 Lemma wf_bytes_lower n : Forall wf_bytes n -> Forall wf_bytes (nm_lower n).
 Proof.
   intros H. unfold nm_lower. rewrite Forall_forall in *. intros x Hx. apply in_map_iff in Hx as [y [<- Hy]].
@@ -741,7 +750,7 @@ Proof.
       destruct (w_avail (d_w d) <? w_cursor (d_w d) + opt_record_size); [discriminate|].
       destruct (checked_add16 (w_ar (d_w d)) 1); discriminate.
   - (* set_tsig *)
-    destruct Hwf as [Wa [Wk [Wt [Ws [Oa [Ot Os]]]]]].
+    destruct Hwf as [Wa [Wk [Wt [Ws [Oa [Ot [Os [Lk La]]]]]]]].
     pose proof (step_good_all d (OSetTsig alg key time fudge origid error stime) Hn) as G. cbn [step] in G.
     destruct (set_tsig (nm_lower alg) (nm_lower key) time fudge origid error stime (d_w d)) as [[[] w']|[e w']|] eqn:E;
       simpl in G |- *.
@@ -751,6 +760,7 @@ Proof.
       apply (AInv_fields d g L); auto. simpl. intros t Et. inversion Et; subst t.
       unfold tsig_wf; simpl. split; [apply wf_name_lower; auto|]. split; [apply wf_name_lower; auto|].
       split; auto. split; auto. split; auto. split; [apply wf_bytes_lower; auto|]. split; auto.
+      split; auto. rewrite !wire_lower_length. auto.
     + exists L. apply AInv_obs; auto.
     + unfold set_tsig in E. destruct (w_tsig (d_w d)); [discriminate|].
       destruct (w_avail (d_w d) <? _); [discriminate|].
@@ -759,8 +769,8 @@ Proof.
     unfold update_time_signed. destruct (w_tsig (d_w d)) as [t|] eqn:Et; simpl; [|exists L; apply AInv_eta; auto].
     exists L. apply (AInv_fields d g L); auto.
     + destruct Hn. constructor; simpl; auto. unfold resv in *. simpl. rewrite Et in i_av. exact i_av.
-    + simpl. intros t' E'. inversion E'; subst t'. destruct (a_ts _ _ _ Hi t Et) as [T1 [T2 [T3 [T4 [T5 [T6 [T7 T8]]]]]]].
-      destruct Hwf as [W1 W2]. unfold tsig_wf; simpl. auto 10.
+    + simpl. intros t' E'. inversion E'; subst t'. destruct (a_ts _ _ _ Hi t Et) as [T1 [T2 [T3 [T4 [T5 [T6 [T7 [T8 [T9 T10]]]]]]]]].
+      destruct Hwf as [W1 W2]. unfold tsig_wf; simpl. auto 12.
   - (* clear_rrs *) eexists. apply AInv_clear. exact Hi.
   - (* template *)
     destruct (retemplate_ok newbuf (d_w d) Hn) as [[lim [av E]]|E]; rewrite E; simpl; [|eauto].
@@ -833,7 +843,7 @@ Qed.
 
 Lemma octets_rdata t : tsig_wf t -> wf_bytes (tsig_unsigned_rdata t).
 Proof.
-  intros [_ [T2 [_ [_ [_ [T6 [T7 T8]]]]]]]. unfold tsig_unsigned_rdata.
+  intros [_ [T2 [_ [_ [_ [T6 [T7 [T8 _]]]]]]]]. unfold tsig_unsigned_rdata.
   assert (W : wf_bytes (nm_wire (t_alg t))).
   { unfold nm_wire. apply wf_bytes_app; [apply wf_bytes_lwire; auto|]. constructor; [unfold is_octet; lia|constructor]. }
   assert (O : wf_bytes (if (t_error t =? badtime)%N then t_server_time t else []))
